@@ -151,9 +151,11 @@ impl Profile {
 				.require("cfg_append_only", 1)
 				.require("cfg_rc_roots", 1)
 				.require("cfg_direct", 1),
-			Profile::C11 => Spec::new("C11", "exploration", &format!("{} Deterministic (single-threaded) variant of C11: a read guard of a tree is held while the tree is dereferenced (alone or together with writes to a second column), later transactions write the same keys, the pipeline is stepped in arbitrary order, the guard is released and the pipeline drained.", rule_common))
+			Profile::C11 => Spec::new("C11", "exploration", &format!("{} Deterministic (single-threaded) variant of C11: a read guard of a tree is held while the tree is dereferenced (alone or together with writes to a second column), later transactions write the same keys, the pipeline is stepped in arbitrary order, the guard is released and the pipeline drained. Scripted sub-scenarios: a reader handle that outlives a processed dereference and is locked only afterwards; a tree inserted UNDER THE LOCK of a tree whose (one or several) dereferences are queued, re-using one of its nodes, guard and handle given up before the worker reaches the last dereference (the model applies that dereference after the insertion, as the property demands).", rule_common))
 				.require("guard_held_derefs", 20)
 				.require("deferred_commits", 20)
+				.require("insert_under_lock_scenarios", 10)
+				.require("insert_under_lock_several_derefs_queued", 2)
 				.require("guard_reads", 100),
 			Profile::C14 => Spec::new("C14", "exploration", &format!("{} After every drain / restart the independent structural checker (fsck, parses the files from the documented layout) validates free lists, slot classification, index<->value bijection, btree order/depth, multitree reference counts and iteration multisets.", rule_common))
 				.require("fsck_runs", 20)
